@@ -193,7 +193,12 @@ func ruleC13KeyFidelity(c *Ctx) {
 					case staticIs(i, "(*database/sql.DB).ExecContext"), staticIs(i, "(*database/sql.DB).QueryRowContext"), staticIs(i, "(*database/sql.DB).QueryContext"):
 						args = varargValues(callOf(i).Args[3])
 					default:
-						return
+						// a helper of the package that forwards its query and bind arguments to one statement call
+						_, bi, isFwd := sqlForwarder(staticCallee(i))
+						if _, isCall := i.(*ssa.Call); !isCall || !isFwd || bi >= len(callOf(i).Args) {
+							return
+						}
+						args = varargValues(callOf(i).Args[bi])
 					}
 					n++
 					var got []string
@@ -435,7 +440,7 @@ func ruleC13ReadsHitBackend(c *Ctx) {
 			n := 0
 			// a helper of the package that performs the read before it hands anything back
 			delegated := map[*ssa.Function]bool{}
-			for _, h := range readHelpersOf(f) {
+			for _, h := range readHelpersWith(f, isRead) {
 				if readsBeforeValue(h, isRead) {
 					delegated[h] = true
 					c.FuncsAnalysed[shortName(h)] = true
